@@ -147,11 +147,13 @@ def second_pass_lines(summary: Dict) -> List[Dict]:
     return out
 
 
-def explore(ctx: Ctx, n_inputs: int, salt: int, kinds=None, n_qry: int = 12):
+def explore(ctx: Ctx, n_inputs: int, salt: int, kinds=None, n_qry: int = 12, model: bool = True):
     quick = ctx.tier == "quick"
     mc_res = {}
 
     def mc():
+        if not model:
+            return
         try:
             mc_res["r"] = tlc.run_tlc("MC_Pipeline", "MC_Pipeline.cfg" if quick else "MC_Pipeline_thorough.cfg",
                                       ctx.workdir, workers=4 if quick else 12, heap_gb=16, timeout=5400)
@@ -183,6 +185,7 @@ def explore(ctx: Ctx, n_inputs: int, salt: int, kinds=None, n_qry: int = 12):
     th.join()
     if "err" in mc_res:
         raise mc_res["err"]
-    ctx.add_model("MC_Pipeline", mc_res["r"])
-    ctx.exhaustive = True
+    if model:
+        ctx.add_model("MC_Pipeline", mc_res["r"])
+        ctx.exhaustive = True
     return res, lines, out
